@@ -343,6 +343,20 @@ def fixed_cases(rng):
         c["normalized"] = True
         c["xs"] = [4900.0, 5000.0, 5100.0, 5185.0, 7600.0, 8300.0]
         out.append(c)
+    # a long chain (over a hundred thousand samples, as MCMC posteriors are): every sample counts, in whatever order the
+    # chain is handed over (oracle only: the model is not run on chains of this length)
+    r = np.random.RandomState(20261001)
+    long_chain = (5000.0 + 150.0 * r.standard_normal(100003)).tolist()
+    for rule in ("scott", 0.3):
+        c = finish_case(rng, "DdtHist", list(long_chain), None, "long_chain", "none")
+        c["rule"] = "scalar" if rule == 0.3 else rule
+        c["factor"] = 0.3
+        c["nbins"] = 50
+        c["normalized"] = True
+        c["via"] = "class"
+        c["xs"] = [4700.0, 5000.0, 5210.0]
+        c["oracle_only"] = True
+        out.append(c)
     return out
 
 
@@ -610,7 +624,7 @@ def run(ctx, res):
         # joint likelihood, on every second KDE/Kin case in the thorough tier
         want = (ctx.tier == "quick" or c["cls"] == "DdtHist" or i % 2 == 0
                 or (c["cls"] == "DdtHistKin" and c["normalized"]) or i < 60)
-        fails, info = oracle(c, want_integral=want)
+        fails, info = oracle(c, want_integral=want and not c.get("oracle_only"))
         infos.append(info)
         res.evaluations += 1
         stats(c, res)
@@ -634,8 +648,8 @@ def run(ctx, res):
         return
     ops, owner = [], []
     for i, (c, info) in enumerate(zip(cases, infos)):
-        if c["kernel"] != "gaussian":
-            continue        # model covers the gaussian kernel only (oracle covers all six)
+        if c["kernel"] != "gaussian" or c.get("oracle_only"):
+            continue        # model covers the gaussian kernel only (oracle covers all six); very long chains: oracle only
         for op in driver_ops(c, info):
             ops.append(op)
             owner.append(i)
